@@ -10,10 +10,10 @@ CONSTANTS
   MaxWait = 2
   UniqueVals = TRUE
   Ghost = TRUE
-  Mut = "no-restore"
-  MaxDie = 0
+  Mut = "none"
+  MaxDie = 1
   EdgeFile = ""
 INIT Init
 NEXT Next
 CHECK_DEADLOCK TRUE
-INVARIANTS TypeOK Serializable QuiescentAgree NoLeak NoIndefiniteBlock
+INVARIANTS TypeOK Serializable QuiescentAgree NoLeak NoIndefiniteBlock DeadInvisible
